@@ -9,7 +9,7 @@ PROP = 'C04'
 LEAN_MODULES = ['BR.Props.C04']
 THEOREMS = ['BR.C04.matmul_is_mul', 'BR.C04.matmul_assoc', 'BR.C04.inv_is_group_inv', 'BR.C04.localToGlobal_eq', 'BR.C04.globalToLocal_eq',
             'BR.C04.l2g_g2l_inverse', 'BR.C04.ctor6_plain', 'BR.C04.ctor_rpy', 'BR.C04.ctor_pair', 'BR.C04.ctor_matrix', 'BR.C04.ctor_quat',
-            'BR.C04.ctor_tm', 'BR.C04.setQuat_getQuat_id']
+            'BR.C04.ctor_tm', 'BR.C04.setQuat_getQuat_id', 'BR.C04.quatToRot_smul', 'BR.C04.quatToRot_neg', 'BR.C04.ctor_quat_scale']
 TIE = ('K: the Tm model of C03 (lean/BR/Model/Tm.lean); every run renders one pose in each documented constructor form and evaluates pose triples on real tm objects and on the '
        'Float instance of the model, comparing gTM()/gTAA(); the group laws and constructor equivalences are also evaluated directly on the real objects against NumPy references.')
 TRUSTED = ['Lean 4.33 kernel + Mathlib v4.33 (axioms: propext, Classical.choice, Quot.sound)', 'harness/tmh.py, harness/c04.py, harness/gen.py',
